@@ -47,7 +47,7 @@ theorem plainT_toTree : ∀ i : Inl, plainT i.toTree = i.plain
   | .emph _ cs => by simp [Inl.toTree, plainT, Inl.plain, plainF_toForest cs]
   | .strong _ cs => by simp [Inl.toTree, plainT, Inl.plain, plainF_toForest cs]
   | .strike cs => by simp [Inl.toTree, plainT, Inl.plain, plainF_toForest cs]
-  | .link _ _ _ cs => by simp [Inl.toTree, plainT, Inl.plain, plainF_toForest cs]
+  | .link _ _ _ _ cs => by simp [Inl.toTree, plainT, Inl.plain, plainF_toForest cs]
   | .image _ _ _ cs => by simp [Inl.toTree, plainT, Inl.plain, plainF_toForest cs]
   | .autolink s r => by simp [Inl.toTree, leaf, plainT, plainF, Inl.plain]
   | .hard _ => by simp [Inl.toTree, leaf, plainT, plainF, Inl.plain]
@@ -153,8 +153,8 @@ theorem inl_strong (us : Bool) (cs : Inls) (ih : InlsGoal cs) : InlGoal (.strong
 theorem inl_strike (cs : Inls) (ih : InlsGoal cs) : InlGoal (.strike cs) := fun cx lf =>
   R_node rfl (enter_strike cx {} _ lf) (ih _ _ _ _ _) (exit_strike cx _ _)
 
-theorem inl_link (url title : Bytes) (a : Bool) (cs : Inls) (h : urlSafe url = true) (ih : InlsGoal cs) :
-    InlGoal (.link url title a cs) := fun cx lf =>
+theorem inl_link (url title : Bytes) (a : Bool) (sp : Spell) (cs : Inls) (h : urlSafe url = true) (ih : InlsGoal cs) :
+    InlGoal (.link url title a sp cs) := fun cx lf =>
   R_congr (R_node rfl (enter_link cx {} _ lf url title h) (ih _ _ _ _ _) (exit_link cx _ _ url title))
     (by simp [Inl.html])
 
@@ -192,9 +192,9 @@ theorem inl_goal : ∀ i : Inl, i.safe = true → InlGoal i
   | .emph us cs, h => inl_emph us cs (inls_goal cs (by simpa [Inl.safe] using h))
   | .strong us cs, h => inl_strong us cs (inls_goal cs (by simpa [Inl.safe] using h))
   | .strike cs, h => inl_strike cs (inls_goal cs (by simpa [Inl.safe] using h))
-  | .link url title a cs, h => by
+  | .link url title a sp cs, h => by
     simp only [Inl.safe, Bool.and_eq_true] at h
-    exact inl_link url title a cs h.1 (inls_goal cs h.2)
+    exact inl_link url title a sp cs h.1 (inls_goal cs h.2)
   | .image url title a cs, h => by
     simp only [Inl.safe, Bool.and_eq_true] at h
     exact inl_image url title a cs h.1
